@@ -69,3 +69,14 @@ class HAttrs:
         name = "holder"
 
     attrs: Dict[str, str] = field(default_factory=dict, metadata={"type": "Attributes", "namespace": "##any"})
+
+
+@dataclass
+class Note:
+    """A typed model that wildcards locate by element name; it has its own list wildcard."""
+
+    class Meta:
+        name = "note"
+
+    any: List[object] = field(default_factory=list, metadata={"type": "Wildcard", "namespace": "##any"})
+    lang: Optional[str] = field(default=None, metadata={"type": "Attribute"})
